@@ -44,7 +44,7 @@ type Slot struct {
 
 type UCase struct {
 	Slots     []Slot `json:"slots"`
-	Fault     string `json:"fault"` // err-u panic-u panic-m
+	Fault     string `json:"fault"` // err-u panic-u panic-m badjson-m
 	Transport string `json:"transport"`
 	PlanSeed  uint64 `json:"plan_seed"`
 	Siblings  bool   `json:"siblings"`
@@ -177,7 +177,7 @@ func serveWS(h http.Handler, query string, vars map[string]any) (data *strictjso
 
 func serveU(s *proj.Server, c UCase, query string, vars map[string]any) (*served, *vfrun.Failure) {
 	var rec atomic.Int64
-	h := hsrv.New(s, hsrv.Config{Transports: []string{"websocket", "get", "post"}, Recovers: &rec})
+	h := hsrv.New(s, hsrv.Config{Transports: []string{"websocket", "get", "sse", "post"}, Recovers: &rec})
 	e := univ.NewExec(plan.New(c.PlanSeed))
 	s.U.SetExec(e)
 	if c.Transport == "ws" {
@@ -192,14 +192,46 @@ func serveU(s *proj.Server, c UCase, query string, vars map[string]any) (*served
 		b, _ := json.Marshal(vars)
 		vj = string(b)
 	}
-	req := hsrv.Req{Transport: c.Transport, Query: query, HasQuery: true, Variables: vj}.Build()
+	hreq := hsrv.Req{Transport: c.Transport, Query: query, HasQuery: true, Variables: vj}
+	if c.Transport == "sse" {
+		hreq.Transport, hreq.Headers = "post", map[string]string{"Accept": "text/event-stream"}
+	}
+	req := hreq.Build()
 	var escaped any
-	res := func() (r hsrv.Result) {
-		defer func() { escaped = recover() }()
-		return hsrv.Serve(h, req)
+	type ret struct {
+		r hsrv.Result
+		p any
+	}
+	done := make(chan ret, 1)
+	go func() {
+		var out ret
+		defer func() { out.p = recover(); done <- out }()
+		out.r = hsrv.Serve(h, req)
 	}()
+	var res hsrv.Result
+	select {
+	case x := <-done:
+		res, escaped = x.r, x.p
+	case <-time.After(10 * time.Second):
+		return nil, vfrun.Failf("contain.handler-never-returns", "%s over %s, variables %s: the handler has not returned after 10 s (every resolver returns at once)", query, c.Transport, vj)
+	}
 	if escaped != nil {
 		return nil, vfrun.Failf("contain.panic-escaped-handler", "%s variables %s: panic escaped ServeHTTP: %v", query, vj, escaped)
+	}
+	if c.Transport == "sse" {
+		// the answer is the last JSON document of the stream: the payload of the last event, or the
+		// error body the server's recover wrote after a failed write
+		last := ""
+		for _, ln := range strings.Split(string(res.Body), "\n") {
+			ln = strings.TrimSpace(strings.TrimPrefix(ln, "data: "))
+			if strings.HasPrefix(ln, "{") {
+				last = ln
+			}
+		}
+		res.Body = []byte(last)
+		if res.Status == 0 {
+			res.Status = 200
+		}
 	}
 	out := &served{status: res.Status, body: res.Body, recovers: rec.Load(), calls: e.Keys("R")}
 	root, err := strictjson.Parse(res.Body)
@@ -327,12 +359,12 @@ func checkUserCode(c UCase) *vfrun.Failure {
 			}
 		}
 		switch {
-		case nhot == 0 || (c.Fault == "panic-m" && !marshalSite):
+		case nhot == 0 || ((c.Fault == "panic-m" || c.Fault == "badjson-m") && !marshalSite):
 			// nothing hostile is reached: same answer as the benign request but for the echoed values
 			if fr.status != 200 || len(fr.errors) > 0 || fr.recovers != 0 {
 				return vfrun.Failf("contain.error-without-fault", "%s: no fault point is reached, answer %d %s (recover hook %d)", what, fr.status, fr.body, fr.recovers)
 			}
-		case c.Fault == "panic-m":
+		case c.Fault == "panic-m" || c.Fault == "badjson-m":
 			// a panic while serialising fails this response as a whole, with a well-formed error body
 			if len(fr.errors) == 0 {
 				return vfrun.Failf("serialize.panic-without-error", "%s: a marshaler panicked, answer %d %s has no errors", what, fr.status, fr.body)
@@ -410,10 +442,14 @@ func checkUserCode(c UCase) *vfrun.Failure {
 
 func genUserCode(t *rapid.T) UCase {
 	c := UCase{
-		Fault:     rapid.SampledFrom([]string{"err-u", "panic-u", "panic-m"}).Draw(t, "fault"),
-		Transport: rapid.SampledFrom([]string{"post", "get", "ws"}).Draw(t, "transport"),
+		Fault:     rapid.SampledFrom([]string{"err-u", "panic-u", "panic-m", "badjson-m"}).Draw(t, "fault"),
+		Transport: rapid.SampledFrom([]string{"post", "get", "ws", "sse"}).Draw(t, "transport"),
 		PlanSeed:  rapid.Uint64Range(1, 1<<20).Draw(t, "planseed"),
 		Siblings:  rapid.Bool().Draw(t, "siblings"),
+	}
+	if c.Fault == "badjson-m" && c.Transport == "ws" {
+		// (what a websocket session does with a payload it cannot encode is left to C11)
+		c.Transport = "sse"
 	}
 	n := rapid.IntRange(1, 4).Draw(t, "nslots")
 	for i := 0; i < n; i++ {
